@@ -28,6 +28,8 @@ type Obligation struct {
 	Extra   []string // extra axioms (lemma instances) local to this obligation
 	ModelVars []string
 	Parts   []string // names of the conjuncts (frame obligations: heap arrays)
+	Info    bool // informational canary: reported, never a failure
+	ClauseProps []string // the properties the clause behind this obligation belongs to (nil: the function's)
 }
 
 type loopInfo struct {
